@@ -353,4 +353,88 @@ theorem JInv.revert {snap cur : Outer} {seg : List (Slot × Nat)} (h : JInv snap
     | some v => simp
     | none => simp
 
+/-! ### whole transactions -/
+
+theorem iRunProg_eq (p : TProg) (o : Outer) (j : List (Slot × Nat)) :
+    ∃ j', iRunProg p ⟨o, j⟩ = some ((runOuter p o).1, ⟨(runOuter p o).2, j'⟩) := by
+  induction p generalizing o j with
+  | done ok => exact ⟨j, rfl⟩
+  | read k cont ih =>
+    simp only [iRunProg, iGetState_eq, runOuter]
+    exact ih _ _ _
+  | write k v cont ih =>
+    simp only [iRunProg, iSetState_eq, runOuter]
+    have h := write_eq_step o j k v
+    generalize stepAcc ⟨o, j⟩ (.wr k v) = s1 at h
+    obtain ⟨o1, j1⟩ := s1
+    simp only at h
+    subst h
+    exact ih _ _
+
+theorem iNested_eq (p : TProg) (st : Store) : iNested p st = some (nestedCall p st) := by
+  obtain ⟨j', h⟩ := iRunProg_eq p { store := st } []
+  simp only [iNested, applyMessage_freshStateDB, applyMessage_commitsIffAsked, Bool.and_self, if_true, h, nestedCall]
+  cases hok : (runOuter p { store := st }).1 with
+  | false => simp
+  | true =>
+    obtain ⟨s2, h2, h3⟩ := iCommit_eq ⟨(runOuter p { store := st }).2, j'⟩
+    have : s2.o.store = (runOuter p { store := st }).2.commit := funext h3
+    simp [h2, this]
+
+theorem iRunTx_eq (steps : List MStep) (o : Outer) (j : List (Slot × Nat)) (esc : Nat) :
+    ∃ r, iRunTx steps ⟨o, j⟩ esc = some r ∧
+      r.map (fun x => (x.1.o, x.2)) = (runTx steps ⟨o, esc⟩).map (fun t => (t.o, t.esc)) := by
+  induction steps generalizing o j esc with
+  | nil => exact ⟨_, rfl, rfl⟩
+  | cons st rest ih =>
+    cases st with
+    | evm p pay =>
+      obtain ⟨j', h⟩ := iRunProg_eq p o j
+      simp only [iRunTx, h, runTx]
+      cases hok : (runOuter p o).1 with
+      | false =>
+        have : runOuter p o = (false, (runOuter p o).2) := by rw [← hok]
+        rw [this]; exact ⟨none, rfl, rfl⟩
+      | true =>
+        have : runOuter p o = (true, (runOuter p o).2) := by rw [← hok]
+        rw [this]
+        simp only
+        by_cases hp : esc < pay
+        · simp only [hp, if_true]; exact ⟨none, rfl, rfl⟩
+        · simp only [hp, if_false]; exact ih _ _ _
+    | nested p pay gain =>
+      simp only [iRunTx, iNested_eq, runTx]
+      cases hok : (nestedCall p o.store).1 with
+      | false =>
+        have : nestedCall p o.store = (false, (nestedCall p o.store).2) := by rw [← hok]
+        rw [this]; exact ⟨none, rfl, rfl⟩
+      | true =>
+        have : nestedCall p o.store = (true, (nestedCall p o.store).2) := by rw [← hok]
+        rw [this]
+        simp only
+        by_cases hp : esc < pay
+        · simp only [hp, if_true]; exact ⟨none, rfl, rfl⟩
+        · simp only [hp, if_false]; exact ih _ _ _
+
+/-- **a whole transaction as the source executes it is `txResult`** -/
+theorem iTxResult_eq (steps : List MStep) (st : Store) (esc : Nat) :
+    iTxResult steps st esc = some (txResult steps st esc) := by
+  obtain ⟨r, h1, h2⟩ := iRunTx_eq steps { store := st } [] esc
+  simp only [iTxResult, commit_nativeStoreFirst, if_true, h1, txResult]
+  cases r with
+  | none =>
+    cases hr : runTx steps ⟨{ store := st }, esc⟩ with
+    | none => rfl
+    | some t => rw [hr] at h2; simp at h2
+  | some x =>
+    obtain ⟨s, e⟩ := x
+    cases hr : runTx steps ⟨{ store := st }, esc⟩ with
+    | none => rw [hr] at h2; simp at h2
+    | some t =>
+      rw [hr] at h2
+      simp only [Option.map_some, Option.some.injEq, Prod.mk.injEq] at h2
+      obtain ⟨s2, h3, h4⟩ := iCommit_eq s
+      have : s2.o.store = t.o.commit := by rw [← h2.1]; exact funext h4
+      simp [h3, this, h2.2]
+
 end FxVerif.Proofs.C08Dep
